@@ -312,6 +312,7 @@ class C13(QProp):
     """Theorems (Props/C13.lean): commutativity, associativity, distributivity, a-a = 0, a/a = 1 as corollaries of the SI refinement; correspondence evaluates both sides of every law on literals over the vocabulary and on shipped facts."""
     id = "C13"
     module = "Anything.Props.C13"
+    needs_db_tables = True
     compare_unit = False
     trusted = ["Spec.SI over the extracted table", "facts are read through the real database lookup"]
 
